@@ -361,6 +361,16 @@ impl MonWriter {
     }
 }
 
+/// An injected storage failure: the error kinds a real writer forwards from the filesystem (`FluteError` wraps an
+/// `io::Error`), picked deterministically from the position of the failing call. A retryable-looking kind
+/// (`Interrupted`, `WouldBlock`) is still a failed call of the writer protocol.
+fn injected_error(what: &str, n: u64, id: usize) -> flute::error::FluteError {
+    use std::io::ErrorKind::*;
+    let kinds = [Other, Interrupted, PermissionDenied, WouldBlock, TimedOut, OutOfMemory, NotFound];
+    let k = kinds[((n as usize).wrapping_mul(3).wrapping_add(id)) % kinds.len()];
+    flute::error::FluteError(std::io::Error::new(k, what.to_string()))
+}
+
 impl ObjectWriter for MonWriter {
     fn open(&self, _now: SystemTime) -> flute::error::Result<()> {
         let n_open = {
@@ -371,7 +381,7 @@ impl ObjectWriter for MonWriter {
         if self.fail_open_at == Some(n_open) {
             self.ctx.borrow_mut().count_fault("writer-open-fail");
             self.ev(WKind::OpenFailed, 0, 0);
-            return Err(flute::error::FluteError::new("injected open failure"));
+            return Err(injected_error("injected open failure", n_open, self.id));
         }
         let fail = self.p_open_fail > 0.0
             && self
@@ -380,7 +390,7 @@ impl ObjectWriter for MonWriter {
                 .fault(&format!("writer-open-fail/{}", self.label), self.p_open_fail);
         if fail {
             self.ev(WKind::OpenFailed, 0, 0);
-            return Err(flute::error::FluteError::new("injected open failure"));
+            return Err(injected_error("injected open failure", n_open, self.id));
         }
         if let Some(w) = &self.inner {
             if let Err(e) = w.open(_now) {
@@ -401,7 +411,7 @@ impl ObjectWriter for MonWriter {
         if self.fail_write_at == Some(n_write) {
             self.ctx.borrow_mut().count_fault("writer-write-fail");
             self.ev(WKind::WriteFailed, data.len(), sbn);
-            return Err(flute::error::FluteError::new("injected write failure"));
+            return Err(injected_error("injected write failure", n_write, self.id));
         }
         let fail = self.p_write_fail > 0.0
             && self.ctx.borrow_mut().fault(
@@ -410,7 +420,7 @@ impl ObjectWriter for MonWriter {
             );
         if fail {
             self.ev(WKind::WriteFailed, data.len(), sbn);
-            return Err(flute::error::FluteError::new("injected write failure"));
+            return Err(injected_error("injected write failure", n_write, self.id));
         }
         if let Some(w) = &self.inner {
             if let Err(e) = w.write(sbn, data, _now) {
